@@ -316,6 +316,49 @@ def handleC05 (op : String) (input impl : Json) : Except String Json := do
        else ["non-conflicting-changes-kept-and-untouched-rows-unchanged"])
     let _ := sortR
     return reply mj viol.isEmpty viol
+  | "merge-cli-deliver" =>
+    -- `wrgl merge b1 b2` with --no-gui / --no-commit / neither, on a healthy repository or on one with an
+    -- object missing. The property: the outcome never silently differs from the merge. Whenever the
+    -- command reports success, what it delivered (the CONFLICTS file's conflict keys and merged rows,
+    -- the MERGE file, the merge commit's table) must be the three-way merge of the committed tables
+    -- (`mergeKey` per key); failing is acceptable only when an object was taken away.
+    let columns ← asRow (fldD input "columns" (Json.arr #[]))
+    let pk ← asNatList (fldD input "pk" (Json.arr #[]))
+    let base ← asRows (fldD input "base" (Json.arr #[]))
+    let branches ← (← asArr (fldD input "branches" (Json.arr #[]))).mapM asRows
+    let mode := (fldD input "mode" (Json.str "")).getStr?.toOption.getD ""
+    let faulty := match fldD input "fault" Json.null with
+      | Json.null => false
+      | _ => true
+    if resClass impl == "panic" then return reply Json.null false ["no-panic"]
+    if resClass impl != "ok" then return reply Json.null false ["unexpected-error"]
+    let v := fldD impl "val" Json.null
+    let failed := (fldD v "failed" (Json.bool false)).getBool?.toOption.getD false
+    let applied := (fldD v "faultApplied" (Json.bool false)).getBool?.toOption.getD false
+    let nCols := columns.length
+    let outs := (allKeys pk base branches).map (fun k =>
+      (k, mergeKey nCols (findByKey pk base k) (branches.map (fun br => findByKey pk br k))))
+    let keySort := fun (l : List (List Bytes)) => l.mergeSort (fun a b => keyCmp a b != .gt)
+    let expConf := keySort (outs.filterMap (fun (k, o) => if o == .conflict then some k else none))
+    let expRows := (outs.filterMap (fun (_, o) => match o with
+      | .row r => some (hoistRow pk r)
+      | _ => none))
+    let expCols := hoistRow pk columns
+    let mj := Json.mkObj [("conflictKeys", jRows expConf), ("rows", jNat expRows.length), ("mayFail", Json.bool (faulty && applied))]
+    -- with a conflict, only --no-gui finishes without the merge tool: the other modes are not for this oracle
+    if mode != "no-gui" && !expConf.isEmpty then return reply mj true []
+    if failed then
+      if faulty && applied then return reply mj true []
+      return reply mj false ["unexpected-error"]
+    let iCols ← asRow (fldD v "columns" (Json.arr #[]))
+    let iRows ← asRows (fldD v "rows" (Json.arr #[]))
+    let iConf := keySort (← asRows (fldD v "conflictKeys" (Json.arr #[])))
+    let rowsOk := iRows.length == expRows.length && expRows.all iRows.contains && iRows.all expRows.contains
+    let viol : List String :=
+      (if mode != "no-gui" || iConf == expConf then [] else ["conflicts-reported-exactly"]) ++
+      (if rowsOk then [] else ["non-conflicting-changes-kept-and-untouched-rows-unchanged"]) ++
+      (if iCols == expCols then [] else ["columns-under-their-own-names"])
+    return reply mj viol.isEmpty viol
   | "merge-cli-hist" =>
     -- a history of `wrgl commit` / `wrgl branch create` / `wrgl merge` steps; after every merge step the
     -- table of every branch was read back: each must hold what the merge laws say (see `hOutcomeFor`)
